@@ -124,6 +124,35 @@ def render(r: Rng, lines):
     return s.encode()
 
 
+def jump_case(m, n, e, fill, backward):
+    """A reference whose needed operand JUMPS between two layout passes: between the reference `m` and its label stand `n`
+    references to a label `fill` bytes further on; all of them grow (1 -> 3 or 4 bytes) in the pass after the one that sized
+    `m`, so `m` meets its new distance while it still holds its old, shorter length.  With `n`, `e` swept, the distance seen
+    in that pass lands on every value around a power of two / of sixteen."""
+    mid = ["BR far"] * n + ["OPR ADD"] * e
+    tail = ["LDAC 65536"] * (fill // 5) + ["far", "OPR SVC"]
+    if backward:
+        return ["L"] + mid + [f"{m} L"] + tail
+    return [f"{m} L"] + mid + ["L", "OPR ADD"] + tail
+
+
+def jump_programs(r: Rng, tier):
+    out = []
+    targets = [16, 32, 64, 128, 256, 512, 1024, 2048, 4096]
+    if tier == "thorough":
+        targets += [8192, 16384, 32768, 65536]
+    for t in targets:
+        g, fill = (3, 300) if t <= 2048 else (4, 4200)
+        if t == 4096:
+            g, fill = 3, 300          # the referrers nearest to `far` stay below 4096; the sweep covers the mixture
+        n0 = t // g
+        for back in (True, False):
+            for n in range(max(0, n0 - 3), n0 + 2):
+                for e in range(g):
+                    out.append(render(r, jump_case(r.choice(REL), n, e, fill, back)))
+    return out
+
+
 def shipped_sources():
     return [open(f, "rb").read() for f in sorted(glob.glob(os.path.join(REPO, "tests", "asm", "*.S")))]
 
@@ -144,6 +173,7 @@ def c05_programs(r: Rng, tier):
     for k in range(1, 9):
         for gap in range(8, 20):
             progs.append(render(r, chain_case(r, k, gap)))
+    progs += jump_programs(r, tier)
     nalign = 200 if tier == "quick" else 5000
     for _ in range(nalign):
         progs.append(render(r, align_case(r)))
